@@ -16,10 +16,10 @@ META = dict(
         'the stored copy is internally consistent, else reject-then-accept. Operand roles (collected vs stored vs '
         're-decoded stored) are taken from the provenance of each comparison operand. Plus K1: StoredPoint::update in '
         'process_collected is reachable only through the true edge of check_collected_is_newer.'),
-    decides='the exact acceptance condition for every (number, thisUpdate) history, exhaustive over the order relations',
+    decides='the exact acceptance condition for every (number, thisUpdate) history, exhaustive over the order relations; the stored rollback reference survives cleanup until it expires',
     undecided='ordering semantics of rpki Serial/Time themselves',
     trusted_base=['rustc MIR construction + callee resolution', 'PartialOrd of x509::Serial and Time is a total order'],
-    rules=['K4 decision table (288 rows)', 'K1 store update gated by the newer check'],
+    rules=['K4 decision table (288 rows)', 'K1 store update gated by the newer check', 'K4 StoredPoint::retain: a stored manifest is kept until its certificate expires (shared with C40)'],
 )
 
 
